@@ -66,7 +66,7 @@ Definition is_plain (k : vkind) : bool := match k with KPlain => true | _ => fal
 Fixpoint sef_typed (e : expr) : bool :=
   match e with
   | EIdent _ _ | ELit _ _ _ | EVarK _ _ _ | ESel _ _ _ _ | EConst _ _ => true
-  | EParen x | EUnary _ x | ESliceAll x => sef_typed x
+  | EParen x | EUnary _ x | ESliceAll x | EDeref x => sef_typed x
   | EBinary _ l r => sef_typed l && sef_typed r
   | EIndex a i => sef_typed a && sef_typed i
   | ECall (FPrim p) args =>
@@ -246,7 +246,7 @@ Fixpoint walk_claims (f : expr -> list string) (e : expr) {struct e} : list stri
   (f e ++
    match e with
    | EIdent _ _ | ELit _ _ _ | EVarK _ _ _ | ESel _ _ _ _ | EConst _ _ => []
-   | EParen x | EUnary _ x | ESliceAll x => walk_claims f x
+   | EParen x | EUnary _ x | ESliceAll x | EDeref x => walk_claims f x
    | EBinary _ l r => walk_claims f l ++ walk_claims f r
    | ECall _ args => flat_map (walk_claims f) args
    | EIndex a i => walk_claims f a ++ walk_claims f i
